@@ -107,6 +107,7 @@ class HyperWorld(World):
         self.tagA, self.tagB = self.tags[pair[0]], self.tags[pair[1]]
         self.dt = cfg["dt"]
         self.M = None
+        self.rho = cfg["rho"]
         self.E0 = None
         self.Escale = None
         self.saved = []
@@ -203,7 +204,7 @@ class HyperWorld(World):
                     # the preloaded configuration is kept as iteration 0: a static iteration (no velocity, no
                     # acceleration) that the dynamic run may be rolled back to (step-size studies do that)
                     sim.Save_Iter()
-                    self.saved.append(float(sim._Calc_W()))
+                    self.saved.append((0.0, float(sim._Calc_W()), self.rho))
                     self.static0 = True
             except SutError as e:
                 if simlib.is_nonconvergence(e.exc):
@@ -223,6 +224,13 @@ class HyperWorld(World):
             sim._Set_solutions(self.pt, u0.copy(), v0, np.zeros(n))
         self.u0, self.v0 = u0.copy(), v0.copy()
 
+    def _saved_energy(self, i):
+        ent = self.saved[i]
+        if ent is None:
+            return None
+        KE, W, rho = ent
+        return KE * (self.rho / rho) + W
+
     def _energy(self):
         sim = self.sim
         with self.ctx.sut():
@@ -233,7 +241,7 @@ class HyperWorld(World):
 
     # ------------------------------------------------------------------
     def gen_op(self, rng, frng):
-        w = {"step": 10, "set_dt": 1.5, "save_iter": 1.0, "rollback": 0.6 if self.saved else 0, "tangent": 2.0 if self.cfg["stress"] != "quadrature" else 0}
+        w = {"step": 10, "set_dt": 1.5, "set_rho": 0.8, "save_iter": 1.0, "rollback": 0.6 if self.saved else 0, "tangent": 2.0 if self.cfg["stress"] != "quadrature" else 0}
         names = sorted(w)
         pr = np.array([w[k] for k in names], dtype=float)
         name = names[int(rng.choice(len(names), p=pr / pr.sum()))]
@@ -244,6 +252,8 @@ class HyperWorld(World):
                 op["fault"] = {"seam": "solver", "kind": ["memerr", "singular"][int(frng.integers(2))], "k": int(frng.integers(1, 4))}
         elif name == "set_dt":
             op["dt"] = float(np.round(self.dt * 10 ** rng.uniform(-0.5, 0.5), 6))
+        elif name == "set_rho":
+            op["rho"] = float(np.round(self.rho * 10 ** rng.uniform(-0.6, 0.6), 4))
         elif name == "rollback":
             op["i"] = int(rng.integers(len(self.saved)))
         elif name == "tangent":
@@ -297,7 +307,22 @@ class HyperWorld(World):
         if name == "save_iter":
             with ctx.sut():
                 sim.Save_Iter()
-            self.saved.append(self._energy()[0] if self.M is not None else None)
+            self.saved.append(self._energy()[1:] + (self.rho,) if self.M is not None else None)
+            return "ok"
+
+        if name == "set_rho":
+            # a density study on one simulation object: the mass matrix of the energy balance is the one assembled first,
+            # scaled by the ratio of the densities (not re-read from the simulation, which may have memoised it)
+            with ctx.sut():
+                sim.rho = op["rho"]
+            if self.M is not None:
+                self.M = self.M * (op["rho"] / self.rho)
+            self.rho = op["rho"]
+            if self.M is not None:
+                E, KE, W = self._energy()
+                self.E0 = E
+                self.Escale = max(self.Escale, abs(KE) + abs(W))
+            ctx.probe("density_changed_between_steps")
             return "ok"
 
         if name == "rollback":
@@ -307,18 +332,20 @@ class HyperWorld(World):
                 sim.Set_Iter(op["i"])
             self._clamp()
             ctx.probe("rollback")
-            if self.M is not None and self.saved[op["i"]] is not None:
-                # back on the same trajectory: the energy is the one recorded when the step was saved
+            Esaved = self._saved_energy(op["i"])
+            if self.M is not None and Esaved is not None:
+                # back on the same trajectory: the energy is the one recorded when the step was saved (its kinetic part
+                # scaled if the density was changed since)
                 E = self._energy()[0]
-                if abs(E - self.saved[op["i"]]) > 1e-9 * self.Escale:
-                    raise Violation("rollback-changes-energy", f"KE + W after Set_Iter({op['i']}) = {E:.10e}, was {self.saved[op['i']]:.10e} when saved" + (" (a static iteration: the body is at rest there)" if op["i"] == 0 and getattr(self, "static0", False) else ""))
+                if abs(E - Esaved) > 1e-9 * self.Escale:
+                    raise Violation("rollback-changes-energy", f"KE + W after Set_Iter({op['i']}) = {E:.10e}, was {Esaved:.10e} when saved" + (" (a static iteration: the body is at rest there)" if op["i"] == 0 and getattr(self, "static0", False) else ""))
                 ctx.checked()
             # the trajectory continues from the restored state: its constant is the energy of that state (the one
             # recorded when the iteration was saved, checked above; a static iteration is a body at rest)
             st = simlib.get_state(sim)[simlib.pt_key(self.pt)]
             self.u0, self.v0 = st[0].copy(), st[1].copy()
             if self.M is not None:
-                self.E0 = self.saved[op["i"]] if self.saved[op["i"]] is not None else self._energy()[0]
+                self.E0 = Esaved if Esaved is not None else self._energy()[0]
             if op["i"] == 0 and getattr(self, "static0", False):
                 ctx.probe("rollback_to_static_preload")
             return "ok"
